@@ -48,6 +48,8 @@ CONSTANTS MaxLen,      \* scripts of at most MaxLen commands
           PidOps,      \* process-ID operands ("$p1".."$p3": pid of slot j, "9999": no such process)
           Sigs,        \* signals sent by `kill -s`
           JobsOpts,    \* options of `jobs` without operands ("", "-l", "-p")
+          KillLNums,   \* operands of `kill -l`
+          FgSlots,     \* slots that may also be started as a foreground job that suspends itself
           StartWith    \* name of the script every generated script starts with ("none", "p3", ...)
 
 Slots == {1, 2, 3}
@@ -57,6 +59,12 @@ Chars(s) == [i \in 1..Len(s) |-> SubSeq(s, i, i)]
 SlotNames == [j \in Slots |-> Chars(CASE j = 1 -> "hold 0 </tmp/f1"
                                       [] j = 2 -> "hold 3 </tmp/f2"
                                       [] j = 3 -> "hold 7 </tmp/f3")]
+\* a foreground job `(selfstop; hold K </tmp/fj)` is named after the body of the subshell
+FgNames == [j \in Slots |-> Chars(CASE j = 1 -> "selfstop; hold 0 </tmp/f1"
+                                    [] j = 2 -> "selfstop; hold 3 </tmp/f2"
+                                    [] j = 3 -> "selfstop; hold 7 </tmp/f3")]
+\* SIGSTOP has no POSIX-defined number: the harness reports "384 + SIGSTOP" as this value
+StoppedBySTOP == -116
 \* POSIX-defined signal numbers (kill, "-signal_number"); exit_status.md: 384 + number
 SigNum(s) == CASE s = "HUP" -> 1 [] s = "INT" -> 2 [] s = "QUIT" -> 3 [] s = "KILL" -> 9 [] s = "TERM" -> 15
 BigStatus == 1000000
@@ -69,8 +77,11 @@ ByOf(jobs) == [p \in 1..3 |-> IF \E k \in DOMAIN jobs : jobs[k].pid = p
 MkTab(jobs, c, p, last) == [jobs |-> jobs, cur |-> c, prev |-> p, by |-> ByOf(jobs), last |-> last,
                             len |-> Len(jobs), ids |-> <<>>]
 EmptyTab == MkTab(<<>>, None, None, 0)
-NewJob(k, pid, st) == [i |-> k, pid |-> pid, st |-> st, ch |-> TRUE, ex |-> "N", own |-> TRUE,
-                       name |-> SlotNames[pid], code |-> 0, sig |-> ""]
+\* nid identifies the name: the slot for an asynchronous list, slot + 10 for a foreground job
+NewJob(k, pid, st, fg) == [i |-> k, pid |-> pid, st |-> st, ch |-> TRUE, ex |-> "N", own |-> TRUE,
+                           name |-> IF fg THEN FgNames[pid] ELSE SlotNames[pid],
+                           nid |-> IF fg THEN pid + 10 ELSE pid,
+                           code |-> 0, sig |-> IF st = "S" THEN "STOP" ELSE ""]
 \* the exit code / signal detail is not part of the JobListAbs relations
 Proj(t) == [t EXCEPT !.jobs = [k \in DOMAIN t.jobs |-> [t.jobs[k] EXCEPT !.code = 0, !.sig = ""]]]
 
@@ -102,11 +113,11 @@ UpdTab(t, pid, st, code, sig) ==
 \* A new job.  job_control.md "Job numbers": "assigned sequentially, starting from 1.
 \* After a job is removed, its number may be reused": any unused number up to one more
 \* than the largest in use.
-InsTab(t, pid, st) ==
+InsTab(t, pid, st, fg) ==
   LET used == Idx(t)
       top == IF used = {} THEN -1 ELSE MaxOf(used)
       K == (0..(top + 1)) \ used
-  IN UNION {LET jobs2 == InsSorted(t.jobs, NewJob(k, pid, st))
+  IN UNION {LET jobs2 == InsSorted(t.jobs, NewJob(k, pid, st, fg))
             IN {t2 \in {MkTab(jobs2, cp[1], cp[2], t.last) : cp \in SelOf(jobs2)} :
                   /\ TabInv(t2) /\ StableNumbers(t, t2)
                   /\ Insert(Proj(t), [op |-> "insert", p |-> pid, s |-> st], k, Proj(t2))} : k \in K}
@@ -218,7 +229,7 @@ Mark(t, i) == IF i = t.cur THEN "+" ELSE IF i = t.prev THEN "-" ELSE " "
 JobsLine(t, x, opt) ==
   IF opt = "-p" THEN [n |-> 0, mk |-> "", pid |-> x.pid, st |-> "", code |-> 0, sig |-> "", nm |-> -1]
   ELSE [n |-> x.i + 1, mk |-> Mark(t, x.i), pid |-> IF opt = "-l" THEN x.pid ELSE -1,
-        st |-> x.st, code |-> x.code, sig |-> x.sig, nm |-> x.pid]
+        st |-> x.st, code |-> x.code, sig |-> x.sig, nm |-> x.nid]
 Listing(t, T, opt) ==
   LET sel == SelectSeq(t.jobs, LAMBDA x : x.i \in T)
   IN [k \in DOMAIN sel |-> JobsLine(t, sel[k], opt)]
@@ -230,7 +241,14 @@ NameLine(n, j) == [n |-> n, mk |-> "", pid |-> -1, st |-> "", code |-> 0, sig |-
 \* `body &`: XCU 2.9.3.1: new job, `$!` = its process ID, exit status 0
 DoStart(S, c) ==
   LET S1 == [S EXCEPT !.ps[c.j] = [st |-> "R", code |-> 0, sig |-> "", ran |-> FALSE]]
-  IN {Ok(<<>>, [S1 EXCEPT !.t = [t2 EXCEPT !.last = c.j, !.by = ByOf(t2.jobs)]]) : t2 \in InsTab(S.t, c.j, "R")}
+  IN {Ok(<<>>, [S1 EXCEPT !.t = [t2 EXCEPT !.last = c.j, !.by = ByOf(t2.jobs)]]) : t2 \in InsTab(S.t, c.j, "R", FALSE)}
+
+\* `(selfstop; body)` with job control: a foreground job that is suspended enters the job
+\* table as a suspended job (job_control.md "Suspending foreground jobs"); `$?` is "as if
+\* it had been terminated by the signal that suspended it"; `$!` is not affected.
+DoFgStart(S, c) ==
+  LET S1 == [S EXCEPT !.ps[c.j] = [st |-> "S", code |-> 0, sig |-> "STOP", ran |-> TRUE]]
+  IN {Res(StoppedBySTOP, StoppedBySTOP, "n", <<>>, FALSE, [S1 EXCEPT !.t = t2]) : t2 \in InsTab(S.t, c.j, "S", TRUE)}
 
 DoRel(S, c) == {Ok(<<>>, [S EXCEPT !.rel[c.j] = TRUE])}
 DoSettle(S, c) == {Ok(<<>>, X) : X \in Settle(S)}
@@ -274,8 +292,8 @@ DoBg(S, c) ==
      ELSE LET p == S.ps[r.j]
               lasts(X) == {[X EXCEPT !.t = [t2 EXCEPT !.last = r.j]] : t2 \in Reselect(X.t)}
           IN IF Dead(p) THEN {Free(X) : X \in lasts(S) \cup {S}}
-             ELSE IF p.st = "R" THEN {Res(0, 0, "n", <<NameLine(r.i + 1, r.j)>>, FALSE, X) : X \in lasts(S)}
-             ELSE UNION {{Ok(<<NameLine(r.i + 1, r.j)>>, Y) : Y \in lasts(X)} : X \in SetProc(S, r.j, "R", 0, "")}
+             ELSE IF p.st = "R" THEN {Res(0, 0, "n", <<NameLine(r.i + 1, J(S.t, r.i).nid)>>, FALSE, X) : X \in lasts(S)}
+             ELSE UNION {{Ok(<<NameLine(r.i + 1, J(S.t, r.i).nid)>>, Y) : Y \in lasts(X)} : X \in SetProc(S, r.j, "R", 0, "")}
 
 \* fg.md / XCU fg: continue, wait, report the job's status; a finished job is removed
 DoFg(S, c) ==
@@ -285,7 +303,7 @@ DoFg(S, c) ==
               S1 == IF p.st = "S" THEN SetProc(S, r.j, "R", 0, "") ELSE {S}
               S2 == IF Dead(p) THEN S1 ELSE UNION {SetProc(X, r.j, "E", ExitOf(r.j), "") : X \in S1}
           IN UNION {LET st == StatusOf(X.ps[r.j])
-                    IN {Res(st, st, "n", <<NameLine(0, r.j)>>, FALSE, [X EXCEPT !.t = t2]) : t2 \in RemTab(X.t, {r.i})}
+                    IN {Res(st, st, "n", <<NameLine(0, J(S.t, r.i).nid)>>, FALSE, [X EXCEPT !.t = t2]) : t2 \in RemTab(X.t, {r.i})}
                     : X \in S2}
 
 \* kill.md / XCU kill
@@ -297,8 +315,19 @@ DoKill(S, c) ==
      ELSE IF Dead(S.ps[r.j]) THEN {Free(S)}              \* (not judged, see Unspec)
      ELSE UNION {{Ok(<<>>, X) : X \in SetProc(S, r.j, e[1], e[2], e[3])} : e \in SigEffect(S, r.j, c.sig)}
 
+\* kill.md / XCU kill: `kill -l N` writes the name (without SIG) of signal number N
+\* or of the signal that terminated a process whose exit status is N; 0 is invalid.
+SigOfNum(n) == CASE n = 1 -> "HUP" [] n = 2 -> "INT" [] n = 3 -> "QUIT" [] n = 9 -> "KILL" [] n = 15 -> "TERM"
+                 [] OTHER -> ""
+DoKillL(S, c) ==
+  LET nm == IF c.j > 384 THEN SigOfNum(c.j - 384) ELSE SigOfNum(c.j)
+  IN IF c.j = 0 THEN {Fail(S)}
+     ELSE {Ok(<<[n |-> 0, mk |-> "", pid |-> -1, st |-> "", code |-> 0, sig |-> nm, nm |-> -1]>>, S)}
+
 Do(S, c) ==
   CASE c.k = "start"  -> DoStart(S, c)
+    [] c.k = "killl"  -> DoKillL(S, c)
+    [] c.k = "fgstart" -> DoFgStart(S, c)
     [] c.k = "rel"    -> DoRel(S, c)
     [] c.k = "settle" -> DoSettle(S, c)
     [] c.k = "jobs"   -> DoJobs(S, c)
@@ -312,12 +341,13 @@ Do(S, c) ==
 \* whose effect is the (simulated) kernel's business: see SigUnspec; the simulated
 \* kernel also keeps terminated processes and lets SIGCONT revive them.
 Unspec(S, c) ==
-  \/ c.k = "start" /\ S.ps[c.j].st # "N"
+  \/ c.k \in {"start", "fgstart"} /\ S.ps[c.j].st # "N"
   \/ c.k = "rel" /\ (S.rel[c.j] \/ Dead(S.ps[c.j]))      \* (a dead simulated process woken by input runs on)
   \/ c.k \in {"jobs", "wait", "bg", "fg", "kill"} /\ \E k \in DOMAIN c.ops : ResolveOp(S, c.ops[k]).k = "bad"
   \/ c.k \in {"jobs", "bg", "fg"} /\ \E k \in DOMAIN c.ops : ~IsJobId(c.ops[k])
   \/ c.k \in {"jobs", "bg", "fg"} /\ Len(c.ops) > 1
   \/ c.k = "kill" /\ Len(c.ops) # 1
+  \/ c.k = "killl" /\ c.j # 0 /\ SigOfNum(c.j) = "" /\ (c.j <= 384 \/ SigOfNum(c.j - 384) = "")
   \/ c.k = "kill" /\ LET r == ResolveOp(S, c.ops[1])
                       IN r.k \in {"job", "proc"} /\ (IsJobId(c.ops[1]) => S.m)
                          /\ (Dead(S.ps[r.j]) \/ SigUnspec(S, r.j, c.sig))
@@ -329,7 +359,9 @@ Unspec(S, c) ==
 \* The command never returns (wait.md: "will wait indefinitely"): the set of states the
 \* shell is stuck in.  A process that is stopped, or running an unreleased body, never ends.
 Hang(S, c) ==
-  CASE c.k = "wait" ->
+  CASE c.k = "fgstart" ->      \* without job control the shell goes on waiting for the stopped child
+         IF S.m THEN {} ELSE {[S EXCEPT !.ps[c.j] = [st |-> "S", code |-> 0, sig |-> "STOP", ran |-> TRUE]]}
+    [] c.k = "wait" ->
          IF (\E k \in DOMAIN c.ops : ResolveOp(S, c.ops[k]).k = "amb") THEN {}
          ELSE IF \E i \in WaitJobs(S, c) : ~WillEnd(S, J(S.t, i).pid) THEN {S} ELSE {}
     [] c.k = "fg" ->
@@ -351,7 +383,7 @@ Stuck(S, c) == UNION {UNION {Sync(Y) : Y \in Hang(S1, c)} : S1 \in Sync(S)}
 ObsTab(S) == [k \in DOMAIN S.t.jobs |->
                 LET x == S.t.jobs[k]
                 IN [n |-> x.i + 1, pid |-> x.pid, st |-> x.st, code |-> x.code, sig |-> x.sig,
-                    nm |-> x.pid, jc |-> S.m]]
+                    nm |-> x.nid, jc |-> S.m]]
 MatchObs(r, o) ==
   /\ o.st >= r.lo /\ o.st <= r.hi
   /\ (r.err = "?" \/ (r.err = "y") = o.err)
@@ -397,7 +429,7 @@ Verdict(rec) == RunFrom(rec, {InitS(rec.m)}, 1)
 Cmd(k, j, sig, opt, ops) == [k |-> k, j |-> j, sig |-> sig, opt |-> opt, ops |-> ops]
 AnyOps == JobIdOps \cup PidOps
 Cmds ==
-  {Cmd("start", j, "", "", <<>>) : j \in Slots} \cup {Cmd("rel", j, "", "", <<>>) : j \in Slots}
+  {Cmd("start", j, "", "", <<>>) : j \in Slots} \cup {Cmd("fgstart", j, "", "", <<>>) : j \in FgSlots} \cup {Cmd("rel", j, "", "", <<>>) : j \in Slots}
   \cup {Cmd("settle", 0, "", "", <<>>)}
   \cup {Cmd("jobs", 0, "", o, <<>>) : o \in JobsOpts} \cup {Cmd("jobs", 0, "", "", <<id>>) : id \in JobIdOps}
   \cup {Cmd("wait", 0, "", "", <<>>)} \cup {Cmd("wait", 0, "", "", <<o>>) : o \in AnyOps}
@@ -405,6 +437,7 @@ Cmds ==
   \cup {Cmd("bg", 0, "", "", <<>>), Cmd("fg", 0, "", "", <<>>)}
   \cup {Cmd("bg", 0, "", "", <<id>>) : id \in JobIdOps} \cup {Cmd("fg", 0, "", "", <<id>>) : id \in JobIdOps}
   \cup {Cmd("kill", 0, s, "", <<o>>) : s \in Sigs, o \in AnyOps}
+  \cup {Cmd("killl", n, "", "", <<>>) : n \in KillLNums}
 
 VARIABLES S,     \* specification state
           h,     \* the script that led to it (hidden by the VIEW)
